@@ -389,6 +389,7 @@ func readerStress(run *hx.Run, r *hx.Rng, perSender int) {
 		}
 	}
 	run.Current("reader stress")
+	var wprog int64 // writer progress (hang detection)
 	var writers, readers sync.WaitGroup
 	stop := make(chan struct{})
 	// writers: two senders with long consecutive runs and occasional replacements
@@ -404,6 +405,7 @@ func readerStress(run *hx.Run, r *hx.Rng, perSender int) {
 				if n > 4 && rg.Intn(6) == 0 { // replace a recent pending transaction (same nonce, price bump)
 					sim.pool.AddRemote(w.Tx(ATx{S: s, N: n - 1 - rg.Intn(4), P: 12 + uint64(rg.Intn(3))*2, G: 21000, V: 1}))
 				}
+				atomic.AddInt64(&wprog, 1)
 				run.Current("reader stress")
 			}
 		}()
@@ -428,6 +430,8 @@ func readerStress(run *hx.Run, r *hx.Rng, perSender int) {
 			nw := w.Extend(base, 100000000, cands, [nAccounts]uint64{})
 			w.SetHead(nw)
 			w.feed.Send(core.ChainHeadEvent{Block: nw.blk})
+			atomic.AddInt64(&wprog, 1)
+			run.Current("reader stress")
 			time.Sleep(2 * time.Millisecond)
 		}
 	}()
@@ -468,14 +472,24 @@ func readerStress(run *hx.Run, r *hx.Rng, perSender int) {
 	}
 	done := make(chan struct{})
 	go func() { writers.Wait(); close(done) }()
-	select {
-	case <-done:
-	case <-time.After(120 * time.Second):
-		fail("hang", "reader stress", "writers did not finish within 120 s")
+	// a hang is the absence of writer progress (not a wall-clock budget: a loaded machine under -race is slow, not stuck)
+	for lastP, lastT, waiting := int64(-1), time.Now(), true; waiting; {
+		select {
+		case <-done:
+			waiting = false
+		case <-time.After(500 * time.Millisecond):
+			if p := atomic.LoadInt64(&wprog); p != lastP {
+				lastP, lastT = p, time.Now()
+			} else if time.Since(lastT) > 120*time.Second {
+				fail("hang", "reader stress", "writers made no progress for 120 s")
+				waiting = false
+			}
+		}
 	}
 	close(stop)
 	readers.Wait()
 	for sim.pool.VerifHeadBacklog() > 0 {
+		run.Current("reader stress: draining head events")
 		time.Sleep(time.Millisecond)
 	}
 	time.Sleep(5 * time.Millisecond)
@@ -487,6 +501,7 @@ func readerStress(run *hx.Run, r *hx.Rng, perSender int) {
 	}
 	again.Wait()
 	for round := 0; round < 2; round++ {
+		run.Current("reader stress: views after quiescence")
 		p, q := sim.pool.Content()
 		if kind, detail := judgeReaderView(w, p, q, &submitted); kind != "" {
 			fail(kind, "view after quiescence", detail)
